@@ -1,11 +1,49 @@
 package jm
 
 import (
+	"fmt"
 	"math"
 	"reflect"
 
+	"github.com/sarchlab/akita/v5/mem/vm/lruset"
+
 	"verifharness/internal/hx"
 )
+
+var lrusetT = reflect.TypeOf(lruset.Set{})
+
+// reachedSet is an lruset.Set produced by a real history: NewSet, then random Visit /
+// Evict / UpdateKey / Remove calls. Evicted ways are re-visited only sometimes, so the set
+// may be captured between an Evict and the matching Visit (visit list shorter than the way
+// count, possibly empty).
+func reachedSet(r *hx.Rand) lruset.Set {
+	n := 1 + r.Intn(4)
+	s := lruset.NewSet(n)
+	keys := make([]string, n)
+	for ops := r.Intn(10); ops > 0; ops-- {
+		switch r.Pick(3, 4, 3, 1) {
+		case 0:
+			s.Visit(r.Intn(n))
+		case 1:
+			if w, ok := s.Evict(); ok {
+				k := lruset.KeyString(uint64(r.Intn(3)), uint64(r.Intn(8))<<12)
+				s.UpdateKey(w, keys[w], k)
+				keys[w] = k
+				if r.Chance(1, 2) {
+					s.Visit(w)
+				}
+			}
+		case 2:
+			w := r.Intn(n)
+			k := fmt.Sprintf("k%d", r.Intn(5))
+			s.UpdateKey(w, keys[w], k)
+			keys[w] = k
+		default:
+			s.Remove(keys[r.Intn(n)])
+		}
+	}
+	return s
+}
 
 // Opts steers the random value generator.
 type Opts struct {
@@ -122,6 +160,10 @@ func Fill(r *hx.Rand, v reflect.Value, o Opts) { fill(r, v, o, 0) }
 
 func fill(r *hx.Rand, v reflect.Value, o Opts, depth int) {
 	t := v.Type()
+	if t == lrusetT && r.Chance(3, 4) {
+		v.Set(reflect.ValueOf(reachedSet(r)))
+		return
+	}
 	if t.Kind() == reflect.Struct {
 		if c := knownCustom(t); c != nil && t.Implements(marshalerT) {
 			for _, df := range c.fields {
